@@ -2,6 +2,10 @@ import Dashu.Proofs.Mem.Pool
 import Dashu.Proofs.Mem.Memory
 import Dashu.Proofs.Mem.Slice
 import Dashu.Proofs.Mem.Arith
+import Dashu.Proofs.Mem.Layout
+import Dashu.Proofs.Mem.PowLen
+import Dashu.Model.Mem.Arith2
+import Dashu.Model.Mem.Arith3
 /-
   C17 — The hand-managed integer storage is memory-safe and keeps its invariants  (PARTIAL).
 
@@ -30,6 +34,11 @@ import Dashu.Proofs.Mem.Arith
   (aliasing/provenance, validity of `transmute`, alignment, uninitialised reads of `[len, cap)`,
   `from_static_words` values being dropped) is outside this model; Miri runs of the same histories
   are supporting evidence only.  Allocation failure (null from the allocator) is not modelled.
+
+  Round 4: storage skeletons of `DivRem::div_rem`, `& | ^`, `UBig::pow` (`Model/Mem/Arith2.lean`, compared with the real
+  allocator event stream on every run); memory.rs `array_layout / add_layout / max_layout / MemoryAllocation::new / Drop`
+  size-and-alignment arithmetic (`Model/Mem/Layout.lean`): validity closure, dead `allocate_too_much` arm, `GlobalAlloc`
+  contract, and sufficiency of `add_layout` for the two bump requests that consume it.
 -/
 namespace Dashu.Props.C17
 open Dashu.Model Dashu.Model.Mem
@@ -738,4 +747,157 @@ example : ((exec 64 1000 (exArith.flatMap fun s => match s with | .inl ops => op
     fun P => P 2) = some (.rep (.heap 2 5 [0, 0, 0, 1] false)) := by decide +kernel
 
 end NonVacuity
+-- ============================================================== round 4: more skeletons, memory.rs layouts
+
+/-- the round-4 skeletons — `DivRem::div_rem` (quotient in the lhs buffer, remainder in the rhs buffer), `& | ^` with
+    buffer reuse, `UBig::pow` (one growing result buffer / a chain of `square_large`·`mul_large` results) — are histories
+    over the same proved alphabet, for all operands, forms and exponents; so `arithmetic_histories_keep_invariant`
+    covers any interleaving of them with every other operation -/
+theorem skeleton_ops_ok_round4 (W mx sq : Nat) (f : Form) (bop : BitOp) (a b : List Nat) (k : Nat) :
+    (∀ op ∈ ((fragDivRemBoth W f a b).ops ++ (fragDivRemBoth W f a b).cleanup).map AOp.toOp, op.Ok mx) ∧
+    (∀ op ∈ ((fragBit W bop f a b).ops ++ (fragBit W bop f a b).cleanup).map AOp.toOp, op.Ok mx) ∧
+    (∀ op ∈ ((fragPow W mx sq a k).ops ++ (fragPow W mx sq a k).cleanup).map AOp.toOp, op.Ok mx) :=
+  ⟨AOp.map_ok mx _, AOp.map_ok mx _, AOp.map_ok mx _⟩
+
+/-- second batch (`Model/Mem/Arith3.lean`): the in-place bit methods of `UBig` (`set_bit`, `clear_bit`, `clear_high_bits`,
+    `split_bits`, `next_power_of_two`) and the `IBig` sign glue over the `UBig` skeletons (`/ % div_rem << >> pow`; a negative
+    `>>` is a shift followed by a by-value subtraction on the shifted value) are histories over the proved alphabet too -/
+theorem skeleton_ops_ok_round4b (W mx sq kind : Nat) (f : Form) (fn : BitFn) (na nb byVal : Bool) (a b : List Nat) (k : Nat) :
+    (∀ op ∈ ((fragBitFn W fn a k).ops ++ (fragBitFn W fn a k).cleanup).map AOp.toOp, op.Ok mx) ∧
+    (∀ op ∈ ((fragSignedDiv W kind f na a nb b).ops ++ (fragSignedDiv W kind f na a nb b).cleanup).map AOp.toOp, op.Ok mx) ∧
+    (∀ op ∈ ((fragSignedShl W mx byVal na a k).ops ++ (fragSignedShl W mx byVal na a k).cleanup).map AOp.toOp, op.Ok mx) ∧
+    (∀ op ∈ ((fragSignedShr W sq byVal na a k).ops ++ (fragSignedShr W sq byVal na a k).cleanup).map AOp.toOp, op.Ok mx) ∧
+    (∀ op ∈ ((fragSignedPow W mx sq na a k).ops ++ (fragSignedPow W mx sq na a k).cleanup).map AOp.toOp, op.Ok mx) :=
+  ⟨AOp.map_ok mx _, AOp.map_ok mx _, AOp.map_ok mx _, AOp.map_ok mx _, AOp.map_ok mx _⟩
+
+-- `set_bit(1536)` on a 4-word value: the value's own buffer grows (ensure_capacity, push_zeros, push)
+example : (fragBitFn 64 .setBit [1, 2, 3, 4] 1536).ops =
+    [.intoTyped 0, .ensureCapacity 0 25, .pushZeros 0 20, .push 0 1, .fromBuffer 0] := by decide +kernel
+-- `-(2^197 - 1) >> 5 = -(2^192)`: shift in place, negate, subtract the rounding bit by value (carry into a 4th word)
+example : (fragSignedShr 64 30 true true (toWords 64 4 (2 ^ 197 - 1)) 5).res = 0 := by decide +kernel
+
+/-- `UBig::sqrt_rem(&self)` (root_ops.rs `sqrt_rem_large(words, false)`: shifted copy `shl_large_ref(..).into_buffer()`, root in
+    a fresh buffer, remainder left in the truncated copy, scratch block of `max_layout(sqr, div)` words) is a history over
+    the proved alphabet.  The compound assignments `x op= y`, `x op= &y`, `x <<= n`, `x >>= n` are
+    `*self = mem::take(self) op rhs` and run the by-value skeletons (compared under the form names `av`, `ar`, `a`). -/
+theorem skeleton_ops_ok_sqrt_rem (W mx sq : Nat) (a : List Nat) :
+    ∀ op ∈ ((fragSqrtRem W sq a).ops ++ (fragSqrtRem W sq a).cleanup).map AOp.toOp, op.Ok mx :=
+  AOp.map_ok mx _
+
+-- a 5-word operand: odd length ⇒ the copy is shifted by a whole word (+ the even part of the leading zeros), n = 3
+example : ((fragSqrtRem 64 30 [1, 2, 3, 4, 5]).ops.take 3, (fragSqrtRem 64 30 [1, 2, 3, 4, 5]).res2) =
+    ([.allocate 3 7, .pushZeros 3 1, .pushTailFrom 3 0 0], some 3) := by decide +kernel
+
+/-- `IBig & | ^` for all sign pairs (bits.rs `impl_ibig_bitand / bitor / bitxor`: `sub_one` on the negative magnitudes —
+    in place by value, in a copy by reference —, the crate-internal `and_not`, a final `!` = `add_one` with
+    `push_resizing(1)` on carry) is a history over the proved alphabet -/
+theorem skeleton_ops_ok_ibig_bits (W mx op : Nat) (f : Form) (na nb : Bool) (a b : List Nat) :
+    ∀ o ∈ ((fragSignedBit W op f na a nb b).ops ++ (fragSignedBit W op f na a nb b).cleanup).map AOp.toOp, o.Ok mx :=
+  AOp.map_ok mx _
+
+-- `-(2^192) & -(2^192)` by value: both magnitudes lose a word by `sub_one`, `|` in place, the final `!` carries back
+example : (fragSignedBit 64 0 .vv true [0, 0, 0, 1] true [0, 0, 0, 1]).res = 0 := by decide +kernel
+
+/-- memory.rs `array_layout::<T>(n)`: returns (instead of `panic_allocate_too_much`) iff `n · size_of::<T>()` fits
+    `isize::MAX - (align - 1)`; the layout returned is valid and has exactly that size — in particular the
+    multiplication cannot have wrapped -/
+theorem array_layout_spec (U esize alog n : Nat) (hU : alog < U) :
+    ((Lay.arrayLayout U esize alog n).isSome = true ↔ esize * n ≤ Lay.maxSizeForAlign U alog) ∧
+    ∀ l, Lay.arrayLayout U esize alog n = some l → l.Valid U ∧ l.size = esize * n ∧ l.alog = alog :=
+  ⟨Lay.arrayLayout_isSome_iff U esize alog n, fun _ h => Lay.arrayLayout_valid hU h⟩
+
+/-- memory.rs `add_layout` / `max_layout` preserve validity; `add_layout` places the second part at an offset that is
+    aligned for it, not before the end of the first part and less than one alignment after it -/
+theorem add_max_layout_valid {U : Nat} {a b : Lay.Layout} (ha : a.Valid U) (hb : b.Valid U) :
+    (∀ l off, Lay.addLayout U a b = some (l, off) →
+      l.Valid U ∧ l.alog = max a.alog b.alog ∧ a.size ≤ off ∧ off < a.size + b.align ∧ off % b.align = 0 ∧
+      l.size = off + b.size) ∧
+    (∀ l, Lay.maxLayout U a b = some l → l.Valid U ∧ l.size = max a.size b.size ∧ l.alog = max a.alog b.alog) :=
+  ⟨fun _ _ h => Lay.addLayout_valid ha hb h, fun _ h => Lay.maxLayout_valid h⟩
+
+/-- memory.rs:36-50, 66-72 `MemoryAllocation::new` / `Drop`: for every valid layout (all that `array_layout`,
+    `add_layout`, `max_layout`, `zero_layout` can produce) the `size > isize::MAX` arm is dead; a zero-size layout makes
+    no allocator call and none on drop; otherwise `alloc` gets a non-zero size whose round-up to the power-of-two
+    alignment is ≤ `isize::MAX` (the `GlobalAlloc` contract of the `unsafe { alloc(layout) }` at memory.rs:43) and
+    `dealloc` gets the same `(size, align)` (contract of memory.rs:70) -/
+theorem unsafe_memory_rs_43_70 {U : Nat} {l : Lay.Layout} (h : l.Valid U) :
+    Lay.memoryAllocationNew U l ≠ .tooMuch ∧
+    (l.size = 0 → Lay.memoryAllocationNew U l = .dangling l.align ∧ Lay.memoryAllocationDrop l = none) ∧
+    (l.size ≠ 0 → Lay.memoryAllocationNew U l = .alloc l.size l.align ∧
+      Lay.memoryAllocationDrop l = some (l.size, l.align) ∧ l.size + (l.align - 1) ≤ Lay.isizeMax U) :=
+  Lay.memoryAllocationNew_contract h
+
+/-- `add_layout(array_layout::<A>(na), array_layout::<B>(nb))` is sufficient and correctly aligned for the two nested
+    bump requests that consume it (`allocate_slice::<A>(na)` then `allocate_slice::<B>(nb)` on the remainder): both
+    succeed in a block at any address aligned to the combined alignment; the slices are `[s, s + size_a)` and
+    `[s + offset, s + size)`, nothing is left — all element sizes, alignments, counts -/
+theorem add_layout_serves_bump {U usz : Nat} {ea aa na eb ab nb : Nat} {la lb l : Lay.Layout} {off : Nat}
+    (ha : Lay.arrayLayout U ea aa na = some la) (hb : Lay.arrayLayout U eb ab nb = some lb)
+    (h : Lay.addLayout U la lb = some (l, off)) (s : Nat) (hs : s % l.align = 0) (hfit : s + l.size ≤ usz) :
+    Bump.allocateMany usz ⟨s, s + l.size⟩ [Lay.reqOf ea aa na, Lay.reqOf eb ab nb] =
+      some ([(s, s + la.size), (s + off, s + l.size)], ⟨s + l.size, s + l.size⟩) :=
+  Lay.addLayout_serves_bump ha hb h s hs hfit
+
+/-- memory.rs `max_layout(a, b)` serves either consumer alone at the block start (root.rs `memory_requirement_sqrt_rem` =
+    `max_layout(sqr, div)`: one squaring or one division at a time) — all element sizes, alignments, counts -/
+theorem max_layout_serves_each {U usz : Nat} {ea aa na eb ab nb : Nat} {la lb l : Lay.Layout}
+    (ha : Lay.arrayLayout U ea aa na = some la) (hb : Lay.arrayLayout U eb ab nb = some lb)
+    (h : Lay.maxLayout U la lb = some l) (s : Nat) (hs : s % l.align = 0) (hfit : s + l.size ≤ usz) :
+    Bump.tryFind usz ⟨s, s + l.size⟩ (Lay.reqOf ea aa na) = some (s, s + la.size) ∧
+    Bump.tryFind usz ⟨s, s + l.size⟩ (Lay.reqOf eb ab nb) = some (s, s + lb.size) :=
+  Lay.maxLayout_serves_each ha hb h s hs hfit
+
+example := max_layout_serves_each (U := 64) (usz := 2 ^ 64 - 1) (ea := 8) (aa := 3) (na := 100) (eb := 8) (ab := 3) (nb := 40)
+  (la := ⟨800, 3⟩) (lb := ⟨320, 3⟩) (l := ⟨800, 3⟩) (by decide +kernel) (by decide +kernel) (by decide +kernel)
+  4096 (by decide) (by decide)
+
+/-- two `Word` arrays: `na + nb` words, no padding — the scratch word count of the pow skeletons
+    (`allocScratch s (n + sqrScratchWords n)`) -/
+theorem add_layout_words {U k na nb : Nat} {l : Lay.Layout} {off : Nat}
+    (h : Lay.addLayout U ⟨2 ^ k * na, k⟩ ⟨2 ^ k * nb, k⟩ = some (l, off)) :
+    l.size = 2 ^ k * (na + nb) ∧ off = 2 ^ k * na ∧ l.alog = k := Lay.addLayout_words h
+
+
+/-- pow.rs `pow_word_base` (`res.push_resizing(carry); // actually never resize`): in the loop exactly as the skeleton
+    `fPowWordBase` runs it — from `wbase²` (2 words) at bit `bit_len(e) - 2` of `e = exp / wexp ≥ 2` — the tracked length
+    of the single result buffer ends ≤ `e`; lengths only grow, so every `push_zeros(len)` doubling and every
+    `push_resizing(carry)`, the final one included, stays within the capacity of `Buffer::allocate(e + 1)`.  All word
+    sizes, multipliers, exponents, values.  (That the real buffer shows no realloc event is compared on every run.) -/
+theorem pow_word_base_never_resizes (W mx r m e : Nat) (he : 2 ≤ e) (hmx : e + 1 ≤ mx) (val : Nat) :
+    (powLoop W r m false e (Nat.log2 e - 1) val 2).2.2 ≤ e ∧
+    (powLoop W r m false e (Nat.log2 e - 1) val 2).2.2 + 1 ≤ defaultCapacity mx (e + 1) := by
+  refine ⟨?_, powLoop_word_fits W mx r m e he hmx val⟩
+  have hne : e ≠ 0 := by omega
+  have hl : 1 ≤ Nat.log2 e := (Nat.le_log2 hne).mpr (by simpa using he)
+  have hp : Nat.log2 e - 1 + 1 = Nat.log2 e := by omega
+  have h1 : 1 ≤ e / 2 ^ (Nat.log2 e - 1 + 1) := by
+    rw [hp]; exact Nat.div_pos (Nat.log2_self_le hne) (Nat.two_pow_pos _)
+  exact powLoop_word_len_le W r m e (Nat.log2 e - 1) val 2 (by omega)
+
+/-- pow.rs `pow_dword_base` (`res.push(c0); res.push_resizing(c1); // actually never resize`): from `base²` (4 words) the
+    length stays ≤ `2·exp`, the `num_words` of its `Buffer::allocate(2·exp)` -/
+theorem pow_dword_base_never_resizes (W mx r m e : Nat) (he : 2 ≤ e) (hmx : 2 * e ≤ mx) (val : Nat) :
+    (powLoop W r m true e (Nat.log2 e - 1) val 4).2.2 ≤ defaultCapacity mx (2 * e) :=
+  powLoop_dword_fits W mx r m e he hmx val
+
+example := pow_word_base_never_resizes 64 1000 5 (3 ^ 40) 7 (by decide) (by decide) ((3 ^ 40) ^ 2)
+example : (powLoop 64 5 (3 ^ 40) false 7 1 ((3 ^ 40) ^ 2) 2).2.2 = 7 := by decide +kernel
+
+-- non-vacuity (64-bit usize, Word = u64: esize 8, alog 3)
+example : Lay.arrayLayout 64 8 3 41 = some ⟨328, 3⟩ := by decide +kernel
+example : Lay.arrayLayout 64 8 3 (2 ^ 60) = none := by decide +kernel            -- 2^63 bytes: the documented panic
+example : Lay.addLayout 64 ⟨3, 0⟩ ⟨16, 3⟩ = some (⟨24, 3⟩, 8) := by decide +kernel  -- u8×3 then u64×2: offset 8
+example : (⟨328, 3⟩ : Lay.Layout).Valid 64 := by unfold Lay.Layout.Valid Lay.maxSizeForAlign Lay.isizeMax; decide
+example := add_layout_serves_bump (U := 64) (usz := 2 ^ 64 - 1) (ea := 1) (aa := 0) (na := 3) (eb := 8) (ab := 3) (nb := 2)
+  (la := ⟨3, 0⟩) (lb := ⟨16, 3⟩) (l := ⟨24, 3⟩) (off := 8) (by decide +kernel) (by decide +kernel) (by decide +kernel)
+  4096 (by decide) (by decide)
+example : Lay.memoryAllocationNew 64 ⟨328, 3⟩ = .alloc 328 8 := by decide +kernel
+example : Lay.memoryAllocationNew 64 Lay.zeroLayout = .dangling 1 := by decide +kernel
+
+-- div_rem of a 4-word by a 3-word value, both by value: quotient stays in the lhs buffer, remainder in the rhs buffer
+example : ((fragDivRemBoth 64 .vv [1, 2, 3, 4] [5, 6, 7]).res, (fragDivRemBoth 64 .vv [1, 2, 3, 4] [5, 6, 7]).res2) =
+    (0, some 1) := by decide +kernel
+-- 3^100: the word-base buffer path
+example : ((fragPow 64 ((2 ^ 64 - 1) / 64) 30 [3] 100).ops.length) = 8 := by decide +kernel
+
 end Dashu.Props.C17
